@@ -49,6 +49,32 @@ func driveBaseMul(c *ctx) {
 		v := new(big.Int).Lsh(big.NewInt(int64(1+r.Intn(255))*256+int64(1+r.Intn(255))), uint(8*i))
 		scalars = append(scalars, v)
 	}
+	// every pair of byte positions (windows far apart, with zero bytes / whole zero limbs between them)
+	for i := 0; i < 32; i++ {
+		for j := i + 1; j < 32; j++ {
+			if !c.thorough() && (i*32+j)%2 != int(c.seed%2) {
+				continue
+			}
+			v := new(big.Int).Lsh(big.NewInt(int64(1+r.Intn(255))), uint(8*i))
+			v.Add(v, new(big.Int).Lsh(big.NewInt(int64(1+r.Intn(255))), uint(8*j)))
+			scalars = append(scalars, v)
+		}
+	}
+	// every pattern of zero / non-zero 64-bit limbs
+	for pat := 1; pat < 16; pat++ {
+		for rep := 0; rep < 3; rep++ {
+			var l [4]uint64
+			for k := 0; k < 4; k++ {
+				if pat&(1<<uint(k)) != 0 {
+					l[k] = r.Uint64() | 1
+					if rep == 1 {
+						l[k] = 1
+					}
+				}
+			}
+			scalars = append(scalars, limbsToBig(l))
+		}
+	}
 	for i := 0; i < 64; i++ {
 		mask := new(big.Int).Lsh(big.NewInt(0xf), uint(4*i))
 		scalars = append(scalars, new(big.Int).AndNot(ones, mask), new(big.Int).AndNot(effs, mask))
